@@ -255,7 +255,18 @@ def expanded_ops(case):
             else:
                 m0 = op["wall"] // 60
             out.append((i, {"op": "restart", "calls": [], "alive": op.get("alive", True), "synced": True}))
-            if m0 is not None:
+            if op.get("jump"):
+                # the clock jumped while the boot tick was reading: the catch-up ticks m0 .. minute(wall + jump) arrive at
+                # once; file d<j>.yaml is scheduled at minute m0+j only, so its calls belong to the tick of that minute
+                import re as _re
+                allc = [c for t in ticks for c in t["calls"]]
+                for k in range(op.get("n", 0)):
+                    mine = [c for c in allc if (_re.match(r"^d(\d+)\.", c[1]) and int(_re.match(r"^d(\d+)\.", c[1]).group(1)) == k)
+                            or (k == 0 and not _re.match(r"^d(\d+)\.", c[1]))
+                            or (k == op.get("n", 0) - 1 and _re.match(r"^d(\d+)\.", c[1]) and int(_re.match(r"^d(\d+)\.", c[1]).group(1)) >= op.get("n", 0))]
+                    out.append((i, {"op": "tick", "m": m0 + k, "wall": op["wall"] + op["jump"], "calls": mine,
+                                    "alive": op.get("alive", True), "synced": True}))
+            elif m0 is not None:
                 for k in range(op.get("n", 0)):
                     t = ticks[k] if k < len(ticks) else {"calls": [], "at": 0}
                     wall = t["at"] if (op.get("real") and t.get("at")) else (m0 + k) * 60 + 59
